@@ -1,2 +1,7 @@
 typedef struct { void *data; size_t size; size_t cap; } notations_t; /* opaque here: only handed on to SubpacketParse */
 typedef struct { void *data; size_t size; size_t cap; } vec_vec_u8; /* opaque here */
+/* containers of the threshold-key packets (tag 5/7).  vec_mpi / vec_str: sizes exact, elements content-free (every
+ * element access goes through one scratch cell).  vec_vec_mpi: a real array of rows (each row a sizes-only vec_mpi). */
+typedef struct { gcry_mpi_t *data; size_t size; size_t cap; } vec_mpi;
+typedef struct { void *data; size_t size; size_t cap; } vec_str;
+typedef struct { vec_mpi *data; size_t size; size_t cap; } vec_vec_mpi;
